@@ -219,15 +219,15 @@ def opt (name ty : String) : FieldSpec := ⟨name, ty, true, true⟩
 namespace S
 def epochKind := req "kind" "Int"
 def epochEpoch := req "epoch" "Int"
-def epochSubsets := req "subsets" "[Link]"
+def epochSubsets := req "subsets" "List__Link"
 def subsetKind := req "kind" "Int"
 def subsetFirst := req "first" "Int"
 def subsetLast := req "last" "Int"
-def subsetBlocks := req "blocks" "[Link]"
+def subsetBlocks := req "blocks" "List__Link"
 def blockKind := req "kind" "Int"
 def blockSlot := req "slot" "Int"
-def blockShredding := req "shredding" "[Shredding]"
-def blockEntries := req "entries" "[Link]"
+def blockShredding := req "shredding" "List__Shredding"
+def blockEntries := req "entries" "List__Link"
 def blockMeta := req "meta" "SlotMeta"
 def blockRewards := req "rewards" "Link"
 def rewardsKind := req "kind" "Int"
@@ -241,7 +241,7 @@ def shrShred := req "shredEndIdx" "Int"
 def entryKind := req "kind" "Int"
 def entryNumHashes := req "numHashes" "Int"
 def entryHash := req "hash" "Hash"
-def entryTxs := req "transactions" "[Link]"
+def entryTxs := req "transactions" "List__Link"
 def txKind := req "kind" "Int"
 def txData := req "data" "DataFrame"
 def txMetadata := req "metadata" "DataFrame"
@@ -252,7 +252,7 @@ def dfHash := opt "hash" "Int"
 def dfIndex := opt "index" "Int"
 def dfTotal := opt "total" "Int"
 def dfData := req "data" "Buffer"
-def dfNext := opt "next" "[Link]"
+def dfNext := opt "next" "List__Link"
 end S
 
 /-- every struct type of ledger.ipldsch (all `representation tuple`), in file order -/
@@ -266,6 +266,10 @@ def schema : List (String × List FieldSpec) := [
   ("Entry", [S.entryKind, S.entryNumHashes, S.entryHash, S.entryTxs]),
   ("Transaction", [S.txKind, S.txData, S.txMetadata, S.txSlot, S.txIndex]),
   ("DataFrame", [S.dfKind, S.dfHash, S.dfIndex, S.dfTotal, S.dfData, S.dfNext])]
+
+/-- the list types (element type; elements are not nullable) and the byte-string types of the schema -/
+def schemaLists : List (String × String) := [("List__Link", "Link"), ("List__Shredding", "Shredding")]
+def schemaBytes : List String := ["Hash", "Buffer"]
 
 /-! ## reference encoder (bindnode tuple representation + dag-cbor) -/
 
@@ -290,18 +294,25 @@ def dropTrailingAbsent : List (Option Val) → List (Option Val)
     | [] => (match x with | none => [] | some v => [some v])
     | ys => x :: ys
 
-/-- tuple representation: absent trailing optionals dropped, interior absent ones written as null -/
-def tuple (fields : List (Option Val)) : Val :=
-  .arr ((dropTrailingAbsent fields).map fun | some v => v | none => .null)
+/-- an absent field that is not at the end of the tuple is written as null -/
+def fill : Option Val → Val
+  | some v => v
+  | none => .null
 
-def encDataFrame (d : DataFrame) : Val :=
-  tuple [some (encInt d.kind), encOpt encInt d.hash, encOpt encInt d.index, encOpt encInt d.total,
-         some (.bytes d.data), encOpt encLinks d.next]
+/-- tuple representation: absent trailing optionals dropped, interior absent ones written as null -/
+def tupleItems' (fields : List (Option Val)) : List Val := (dropTrailingAbsent fields).map fill
+def tuple (fields : List (Option Val)) : Val := .arr (tupleItems' fields)
+
+def dfItems (d : DataFrame) : List Val :=
+  tupleItems' [some (encInt d.kind), encOpt encInt d.hash, encOpt encInt d.index, encOpt encInt d.total,
+               some (.bytes d.data), encOpt encLinks d.next]
+def encDataFrame (d : DataFrame) : Val := .arr (dfItems d)
 
 def encShredding (s : Shredding) : Val := tuple [some (encInt s.entryEndIdx), some (encInt s.shredEndIdx)]
 
-def encSlotMeta (m : SlotMeta) : Val :=
-  tuple [some (encInt m.parentSlot), some (encInt m.blocktime), encOpt encInt m.blockHeight]
+def metaItems (m : SlotMeta) : List Val :=
+  tupleItems' [some (encInt m.parentSlot), some (encInt m.blocktime), encOpt encInt m.blockHeight]
+def encSlotMeta (m : SlotMeta) : Val := .arr (metaItems m)
 
 def encode : Node → Val
   | .epoch x => tuple [some (encInt x.kind), some (encInt x.epoch), some (encLinks x.subsets)]
@@ -354,20 +365,26 @@ def decList {α : Type} (f : Val → Except String α) (v : Val) : Except String
   | .arr xs => xs.mapM f
   | _ => .error "wrong kind: expected list"
 
-/-- one field of a tuple-represented struct, as the bindnode tuple assembler treats slot `i`:
+def isNull : Val → Bool
+  | .null => true
+  | .undef => true      -- refmt is configured with CoerceUndefToNull
+  | _ => false
+
+/-- one field of a tuple-represented struct, as the bindnode tuple assembler treats the slot:
     missing → allowed only if optional; null → allowed only if nullable -/
-def field {α : Type} (s : FieldSpec) (dec : Val → Except String α) (items : List Val) (i : Nat) : Except String (OptN α) :=
-  match items[i]? with
+def fieldOf {α : Type} (s : FieldSpec) (dec : Val → Except String α) : Option Val → Except String (OptN α)
   | none => if s.optional then .ok none else .error s!"missing required field {s.name}"
   | some v =>
-    match untag 8 v with
-    | .null => if s.nullable then .ok (some none) else .error s!"null in non-nullable field {s.name}"
-    | .undef => if s.nullable then .ok (some none) else .error s!"null in non-nullable field {s.name}"
-    | _ => (dec v).map fun a => some (some a)
+    if isNull (untag 8 v) then
+      (if s.nullable then .ok (some none) else .error s!"null in non-nullable field {s.name}")
+    else (dec v).map fun a => some (some a)
+
+def field {α : Type} (s : FieldSpec) (dec : Val → Except String α) (items : List Val) (i : Nat) : Except String (OptN α) :=
+  fieldOf s dec items[i]?
 
 /-- a required, non-nullable field -/
 def fieldR {α : Type} (s : FieldSpec) (dec : Val → Except String α) (items : List Val) (i : Nat) : Except String α :=
-  match field s dec items i with
+  match fieldOf s dec items[i]? with
   | .ok (some (some a)) => .ok a
   | .ok _ => .error s!"missing required field {s.name}"
   | .error e => .error e
@@ -518,9 +535,11 @@ def reqInt (arr : List Val) (i : Nat) (name : String) : Outcome Int :=
 
 /-- `if v, ok := arr.Get(i); ok { if v != nil { v, err := getUint64FromInterface(v); …; p := int(v); pp := &p; x.F = &pp } }`
     — a missing or nil slot leaves the `**int` nil -/
+def optIntOf (v : Val) : Outcome (OptN Int) :=
+  if isNil v then .ok none else do let u ← getUint64 v; .ok (some (some (castI64 u)))
 def optInt (arr : List Val) (i : Nat) : Outcome (OptN Int) :=
   match get arr i with
-  | some v => if isNil v then .ok none else do let u ← getUint64 v; .ok (some (some (castI64 u)))
+  | some v => optIntOf v
   | none => .ok none
 
 /-- the body of the link loop (also used for `Block.Rewards`): `subset.(cbor.Tag)` checked, number 42 checked,
